@@ -76,11 +76,13 @@ Qed.
 Lemma t64_eqb_neq x y : x <> y -> t64_eqb x y = false.
 Proof. intros H. destruct (t64_eqb x y) eqn:E; [apply t64_eqb_eq in E; contradiction|reflexivity]. Qed.
 
-(* Time64FromTime is injective on times of one era *)
-Lemma t64_inj_era a b :
-  a < b -> era_of a = era_of b -> time_ok a -> time_ok b -> time64_of_time a <> time64_of_time b.
+(* Time64FromTime separates two times less than 2^32 s apart (also across an
+   NTP era rollover) *)
+Lemma t64_inj_near a b :
+  a < b -> b - a < secs_per_era * nanos_per_sec -> time_ok a -> time_ok b ->
+  time64_of_time a <> time64_of_time b.
 Proof.
-  unfold era_of, time_ok, time64_of_time. intros Hlt He Ha Hb Heq.
+  unfold time_ok, time64_of_time. intros Hlt Hn Ha Hb Heq.
   injection Heq as Hs Hf.
   destruct (time_sec_nsec a) as [Da Ra]. destruct (time_sec_nsec b) as [Db Rb].
   rewrite !frac_value in Hf by (unfold nanos_per_sec in *; lia).
@@ -88,9 +90,10 @@ Proof.
   change (2^60) with 1152921504606846976 in *.
   rewrite !i64_id in Hs by (unfold min_i64, max_i64; lia).
   unfold nanos_per_sec in *.
-  assert (time_sec a = time_sec b) by lia.
-  assert (time_nsec a < time_nsec b) by lia.
-  lia.
+  assert (Hd : time_sec a = time_sec b \/ time_sec b = time_sec a + 4294967296) by lia.
+  destruct Hd as [Hd|Hd].
+  - assert (time_nsec a < time_nsec b) by lia. lia.
+  - assert (time_nsec b < time_nsec a) by lia. lia.
 Qed.
 
 (* ---- bookkeeping invariants ---- *)
@@ -179,14 +182,12 @@ Proof.
   destruct (classify ireq req resp) eqn:C.
   - destruct (negb (metadata_ok resp)); [discriminate|].
     destruct (select_ts true p now0 ctx1 crx resp) as [[[t0 t1] t2] t3] eqn:S.
-    destruct (time_sub t3 t0 <? 0); [discriminate|].
-    destruct (time_sub t2 t1 <? 0); [discriminate|].
+    destruct (negb (timestamps_ok t0 t1 t2 t3 =? 0)); [discriminate|].
     injection H as <-. exists true. cbn [a_inter a_t0 a_t1 a_t2 a_t3 a_off a_rtd a_ts a_prev].
     rewrite S. repeat split; reflexivity.
   - destruct (negb (metadata_ok resp)); [discriminate|].
     destruct (select_ts false p now0 ctx1 crx resp) as [[[t0 t1] t2] t3] eqn:S.
-    destruct (time_sub t3 t0 <? 0); [discriminate|].
-    destruct (time_sub t2 t1 <? 0); [discriminate|].
+    destruct (negb (timestamps_ok t0 t1 t2 t3 =? 0)); [discriminate|].
     injection H as <-. exists false. cbn [a_inter a_t0 a_t1 a_t2 a_t3 a_off a_rtd a_ts a_prev].
     rewrite S. repeat split; reflexivity.
   - destruct cr; discriminate.
@@ -226,7 +227,7 @@ Proof.
     apply andb_prop in W1. destruct W1 as [W1 W2]. apply Z.eqb_eq in W2.
     destruct (Hlink (eq_sym W2)) as [e' [c' [Hg [Hin' [Harr' [Pctx [Pcrx Psrx]]]]]]].
     assert (Hdiff : p_ctx (w_prev w) <> p_crx (w_prev w)).
-    { rewrite Pctx, Pcrx. destruct Harr' as [A1 [A2 [A3 [A4 _]]]]. apply t64_inj_era; auto. }
+    { rewrite Pctx, Pcrx. destruct Harr' as [A1 [A2 [A3 [A4 _]]]]. apply t64_inj_near; auto. }
     rewrite <- Hireq, <- Hpkt in Hcls. unfold classify in Hcls. cbn [k_rx k_tx k_org andb] in Hcls.
     destruct Hconf as [[Ho [_ Ht]]|[Ho [_ [_ [e0 [Hin0 [Hs0 Ht]]]]]]].
     + (* basic reply *)
@@ -345,7 +346,7 @@ Definition bound_for (a : accept_t) (ctx srx stx crx theta : Z) : Prop :=
   Z.abs (a_rtd a - (d1 + d2)) <= 2 /\
   (forall lo hi, lo <= ctx -> crx <= hi ->
      C03_ok1 (a_off a) (a_t0 a) (a_t1 a) (a_t2 a) (a_t3 a)
-       {| x_lo0 := lo; x_srx := srx; x_stx := stx; x_theta := theta; x_hi3 := hi |} = true).
+       {| x_lo0 := lo; x_srx := srx; x_stx := stx; x_theta := theta; x_hi3 := hi; x_fb := false |} = true).
 
 Lemma bound_core a ctx srx stx crx theta :
   ctx - 1 <= a_t0 a <= ctx -> srx - 1 <= a_t1 a <= srx -> stx - 1 <= a_t2 a <= stx -> crx - 1 <= a_t3 a <= crx ->
@@ -365,7 +366,7 @@ Proof.
               ltac:(lia) ltac:(lia) D1 D2 D3 D4) as [B1 [B2 B3]].
   rewrite <- Ho in B1, B3. rewrite <- Hr in B2.
   unfold bound_for. cbv zeta. split; [lia|]. split; [lia|]. split; [exact B1|]. split; [exact B2|].
-  intros lo hi Hlo Hhi. unfold C03_ok1, stamps_in. cbn [x_lo0 x_srx x_stx x_theta x_hi3].
+  intros lo hi Hlo Hhi. unfold C03_ok1, stamps_in. cbn [x_lo0 x_srx x_stx x_theta x_hi3 x_fb].
   rewrite B3. rewrite !andb_true_iff, !Z.leb_le. lia.
 Qed.
 
@@ -419,7 +420,7 @@ Qed.
 (* the oracle evaluated on a list of scripted exchanges that contains the right one *)
 Lemma bound_for_oracle a ctx srx stx crx theta lo hi xs :
   bound_for a ctx srx stx crx theta -> lo <= ctx -> crx <= hi ->
-  In {| x_lo0 := lo; x_srx := srx; x_stx := stx; x_theta := theta; x_hi3 := hi |} xs ->
+  In {| x_lo0 := lo; x_srx := srx; x_stx := stx; x_theta := theta; x_hi3 := hi; x_fb := false |} xs ->
   C03_ok (a_off a) (a_t0 a) (a_t1 a) (a_t2 a) (a_t3 a) xs = true.
 Proof.
   intros [_ [_ [_ [_ H]]]] Hlo Hhi Hin. unfold C03_ok. apply existsb_exists.
